@@ -164,7 +164,7 @@ def explore_block(S, n_inner_max, cols, want=('C03', 'C05', 'C06')):
         ob, ex = S.explore('comment.block[inner=%d]' % n,
                            'block_comment on every "/*" + %d code points + "*/": panic freedom, text preserved line by line modulo leading/trailing '
                            'blanks, and a second pass over the laid-out comment (columns %r) yields the same text' % (n, list(cols)),
-                           body, bounds=dict(inner_code_points=n, columns=list(cols)))
+                           body, bounds=dict(inner_code_points=n, columns=list(cols)), parallel=True)
         for lab, mdl, info in ex.violations:
             found.append((lab, info))
         if ob.status.startswith('inconclusive') or ex.violations:
